@@ -256,13 +256,27 @@ def gen_class(rng, idx):
                            'limit': k, 'base': name, 'needscfg': False,
                            'write': rng.random() < 0.4, 'read': False, 'readonly': False, 'default': None,
                            'pyvalue_default': None, 'value': None, 'export': True})
+    groups = []
+    if rng.random() < 0.35:
+        # parameters written through ONE shared method: rwhandler.CommonWriteHandler (pops the configured values of the
+        # siblings from writeDict), rwhandler.WriteHandler (one call per parameter), or a hand-written write_<p> popping siblings
+        keys = ['ga', 'gb', 'gc'][:rng.choice([2, 2, 3])]
+        kind = rng.choice(['common', 'common', 'each', 'manual'])
+        for name in keys:
+            c = gen_dt(rng, False)
+            while c['t'] not in ('double', 'int'):
+                c = gen_dt(rng, False)
+            params.append({'name': name, 'dt': c, 'limit': None, 'base': '', 'needscfg': False, 'write': False, 'read': False,
+                           'readonly': False, 'default': wrap(valid_value(rng, c, 'inside')), 'pyvalue_default': None,
+                           'value': wrap(valid_value(rng, c, 'inside')) if rng.random() < 0.15 else None, 'export': True})
+        groups.append({'kind': kind, 'keys': keys})
     modprops = []
     if rng.random() < 0.6:
         modprops.append({'name': 'mp', 'dt': {'t': 'int', 'min': 0, 'max': 5}, 'mandatory': True, 'classValue': None})
     if rng.random() < 0.5:
         modprops.append({'name': 'op', 'dt': {'t': 'string', 'minchars': 0, 'maxchars': 8, 'utf8': False}, 'mandatory': False,
                          'classValue': None})
-    return {'id': f'C{idx}', 'params': params, 'modprops': modprops, 'cmd': rng.random() < 0.3}
+    return {'id': f'C{idx}', 'params': params, 'modprops': modprops, 'cmd': rng.random() < 0.3, 'groups': groups}
 
 
 def pyval(cv):
@@ -312,6 +326,36 @@ def build_class(spec):
                 return getattr(self, _n)
             rfunc.__name__ = 'read_' + name
             ns['read_' + name] = rfunc
+    for g in spec.get('groups', []):
+        from frappy.rwhandler import CommonWriteHandler, WriteHandler
+        keys = list(g['keys'])
+        if g['kind'] == 'common':
+            def wcommon(self, values, _keys=keys):
+                t = values.as_tuple(*_keys)
+                self._vlog.append(('driver', '+'.join(_keys), canon(list(t))))
+                for k, v in zip(_keys, t):
+                    setattr(self, k, v)
+            ns['write_grp'] = CommonWriteHandler(keys)(wcommon)
+        elif g['kind'] == 'each':
+            def weach(self, pname, value):
+                self._vlog.append(('driver', pname, canon(value)))
+                return value
+            ns['write_grp'] = WriteHandler(keys)(weach)
+        else:
+            def wfirst(self, value, _n=keys[0], _sib=keys[1:]):
+                extra = {k: self.writeDict.pop(k) for k in _sib if k in self.writeDict}
+                self._vlog.append(('driver', _n, canon(value)))
+                for k, v in extra.items():
+                    setattr(self, k, v)
+                return value
+            wfirst.__name__ = 'write_' + keys[0]
+            ns['write_' + keys[0]] = wfirst
+            for name in keys[1:]:
+                def wplain(self, value, _n=name):
+                    self._vlog.append(('driver', _n, canon(value)))
+                    return value
+                wplain.__name__ = 'write_' + name
+                ns['write_' + name] = wplain
     for mp in spec['modprops']:
         kw = {'mandatory': True} if mp['mandatory'] else {'default': ''}
         ns[mp['name']] = Property('property ' + mp['name'], build_dt(mp['dt']), **kw)
@@ -359,6 +403,13 @@ def class_desc(spec, cls):
         if k in ('implementation', 'interface_classes', 'features'):
             class_value = {'v': {'x': 'auto'}}          # set automatically by the constructor (step 3)
         modprops.append({'name': k, 'dt': dt, 'mandatory': bool(po.mandatory), 'classValue': class_value})
+    consumes = {}
+    for g in spec.get('groups', []):
+        for k in g['keys']:
+            if g['kind'] == 'common':
+                consumes[k] = [x for x in g['keys'] if x != k]
+            elif g['kind'] == 'manual' and k == g['keys'][0]:
+                consumes[k] = list(g['keys'][1:])
     params, other = [], []
     for aname, aobj in cls.accessibles.items():
         if aobj.optional:
@@ -370,7 +421,8 @@ def class_desc(spec, cls):
             params.append({'name': aname, 'dt': p['dt'], 'limit': p['limit'], 'base': p['base'],
                            'value': wrap(aobj.value, aobj.value is not None),          # as stored on the class (converted)
                            'default': wrap(aobj.default, aobj.default is not None), 'needscfg': p['needscfg'],
-                           'write': ('write_' + aname) in cls.wrappedAttributes, 'own': own})
+                           'write': ('write_' + aname) in cls.wrappedAttributes, 'own': own,
+                           'consumes': consumes.get(aname, [])})
         else:
             other.append(aname)
     return {'modprops': modprops, 'params': params, 'other': other}
@@ -558,9 +610,11 @@ def gen_module_cfg(rng, spec, nerr):
         cfg['visibility'] = ('bare', rng.choice(['expert', 'advanced', 2]))
     if rng.random() < 0.1:
         cfg['pollinterval'] = ('bare', rng.choice([1, 2.5, 10]))
+    gkeys = {k for g in spec.get('groups', []) for k in g['keys']}
     for p in spec['params']:
-        if p['needscfg'] or rng.random() < 0.5:
-            items = gen_param_cfg(rng, p, force_value=p['needscfg'])
+        ingroup = p['name'] in gkeys            # members of a shared write method: mostly configured, mostly with a value
+        if p['needscfg'] or rng.random() < (0.85 if ingroup else 0.5):
+            items = gen_param_cfg(rng, p, force_value=p['needscfg'] or (ingroup and rng.random() < 0.8))
             if items:
                 cfg[p['name']] = ('dict', items)
     kinds = []
@@ -689,25 +743,40 @@ class _Stop(Exception):
     pass
 
 
-def run_prologue(m):
-    """run the head of the real poll thread (writeInitParams, initialReads, first polls) without a thread"""
+def run_prologue(m, real_thread):
+    """start-up of the poll thread: the real `startModule` (thread, MultiEvent) when real_thread, else the head of the real
+    `__pollThread` called directly (writeInitParams, initialReads, first polls; stopped by the start callback).
+    Every call of `write_<p>` is logged with its argument and with the entries of writeDict it consumed besides"""
     log = m._vlog
     for pname in list(m.parameters):
         orig = getattr(m, 'write_' + pname, None)
         if orig is not None:
             def wrapper(value, _n=pname, _o=orig):
-                log.append(('write', _n, canon(value)))
-                return _o(value)
+                before = dict(m.writeDict)
+                ev = ['write', _n, canon(value), []]
+                log.append(ev)
+                try:
+                    return _o(value)
+                finally:
+                    ev[3] = [[k, canon(v)] for k, v in before.items() if k not in m.writeDict]
             wrapper.__name__ = 'write_' + pname
             setattr(m, 'write_' + pname, wrapper)
-
-    def started():
+    if real_thread:
+        from frappy.lib.multievent import MultiEvent
+        start_events = MultiEvent(default_timeout=20)
+        m.startModule(start_events)
+        if not start_events.wait():
+            raise RuntimeError('poll thread did not finish its initial work within 20 s')
         log.append(('started',))
-        raise _Stop()
-    try:
-        m._Module__pollThread(list(m.polledModules) or [m], started)
-    except _Stop:
-        pass
+        m.joinPollThread(5)
+    else:
+        def started():
+            log.append(('started',))
+            raise _Stop()
+        try:
+            m._Module__pollThread(list(m.polledModules) or [m], started)
+        except _Stop:
+            pass
     for pname in list(m.parameters):
         m.__dict__.pop('write_' + pname, None)
 
@@ -749,11 +818,11 @@ def observe_module(node, name, spec, cls, effective):
                 pass
     m._vlog = []
     start_values = {pn: (canon(po.value), po.readerror) for pn, po in m.parameters.items()}
-    run_prologue(m)
+    run_prologue(m, bool(spec.get('groups')) or name.endswith('1'))
     seen_poll = False
     for ev in m._vlog:
         if ev[0] == 'write':
-            obs['events'].append(['write', ev[1], ev[2]])
+            obs['events'].append(['write', ev[1], ev[2], ev[3]])
         elif ev[0] == 'driver':
             obs['driver'].append([ev[1], ev[2]])
         elif ev[0] in ('read', 'doPoll', 'started') and not seen_poll:
@@ -1114,7 +1183,9 @@ def subprocess_errors():
 def run(ctx):
     res = Result()
     res.rule = ('a case = one node: 1-4 modules of generated classes (1-5 parameters of double/int/string/bool/enum/array '
-                'datatypes, with/without write_/read_ methods, needscfg, class-level values, Limit parameters, mandatory and '
+                'datatypes, with/without write_/read_ methods, groups of 2-3 parameters sharing a rwhandler.CommonWriteHandler / '
+                'WriteHandler / a hand-written write_<p> popping its siblings from writeDict (started through the real '
+                'startModule + poll thread), needscfg, class-level values, Limit parameters, mandatory and '
                 'optional module properties), cfg through raw dicts or through 1-3 merged config files (Mod/Param DSL), any '
                 'subset configured, values inside/at/outside limits, overrides of min/max/unit/visibility/export/readonly/'
                 'group/description in any key order, 0-4 injected errors of 9 kinds; non-trivial = a module that is registered '
@@ -1166,13 +1237,18 @@ def run(ctx):
             res.count('errors.n=%d' % min(len(obs['errors']), 4))
             for e in obs['errors']:
                 res.count('errkind.' + e['k'])
+            for g in mo['spec'].get('groups', []):
+                ncfg = sum(1 for e in mo['cfg'] if e[0] in g['keys'] and any(k == 'value' for k, _ in e[1].get('acc', [])))
+                res.count('writegroup.%s.configured=%s' % (g['kind'], min(ncfg, 3)))
+                if obs['registered'] and any(e[0] == 'write' and e[3] for e in obs['events']):
+                    res.count('writegroup.call-consumed-siblings')
             res.count('cfg.items=%s' % ('0' if nitems == 0 else '1-3' if nitems < 4 else '4-8' if nitems < 9 else '9+'))
             if (obs['registered'] and nitems) or (not obs['registered'] and judge['offending']):
                 res.nontriv({'cls': mo['cls'], 'cfg': mo['cfg']})
             for p in obs['params']:
                 if p['probes']:
                     res.count('probes', len(p['probes']))
-            if obs['registered'] and len(obs['driver']) < sum(1 for e in obs['events'] if e[0] == 'write'):
+            if obs['registered'] and not mo['spec'].get('groups') and len(obs['driver']) < sum(1 for e in obs['events'] if e[0] == 'write'):
                 O01 += 1
             if len(res.samples) < 4 and nitems >= 2 and len(json.dumps(mo['cfg'])) < 500:
                 res.samples.append({'cfg': mo['cfg'], 'registered': obs['registered'], 'errors': obs['errors'],
